@@ -62,6 +62,8 @@ def rand_pack(rng, cls=None, allow_iterative=True, allow_prefix_ver=True, allow_
     o["atom_last"] = rng.random() < 0.3
     o["split"] = rng.random() < 0.3
     o["sym"] = rng.random() < 0.4
+    if o["sym"] and rng.random() < 0.2:
+        o["sym"] = "orbit"  # the symmetry comes from a factory that also yields the image's rule
     inf = []
     if rng.random() < 0.45:
         inf.append("minimise")
@@ -75,7 +77,7 @@ def rand_pack(rng, cls=None, allow_iterative=True, allow_prefix_ver=True, allow_
     o["inferral"] = inf
     layouts = ["initial", "initial", "sets"] + (["same"] if allow_same else [])
     o["layout"] = rng.choice(layouts)
-    o["factory"] = rng.choice((None, None, None, None, None, 0, 1, 2, 3, 4, 5, 6, 6))
+    o["factory"] = rng.choice((None, None, None, None, None, 0, 1, 2, 3, 4, 5, 6, 6, 7))
     has_stats = bool(cls and cls["stats"])
     vers = ["stat", "stat", "stat"]
     if not has_stats:
